@@ -161,3 +161,46 @@ fn c06_no_plausible_mapping_within_guard_distance_gives_an_empty_stack() {
     std::mem::forget(dumper);
     unsafe { libc::munmap(region, len); }
 }
+
+fn crash_context_with(rip: usize, rsp: usize, tid: i32) -> crate::crash_context::CrashContext {
+    // SAFETY: crash_context::CrashContext is plain old data (libc ucontext_t, fpstate, signalfd_siginfo, two pids)
+    let mut cc: crash_context::CrashContext = unsafe { std::mem::zeroed() };
+    cc.context.uc_mcontext.gregs[libc::REG_RIP as usize] = rip as i64;
+    cc.context.uc_mcontext.gregs[libc::REG_RSP as usize] = rsp as i64;
+    cc.tid = tid;
+    cc.pid = tid;
+    crate::crash_context::CrashContext { inner: cc }
+}
+
+/// C02 / obligation verus:thread_list::write (arithmetic underflow of `instruction_ptr - ip_memory_size / 2`, overflow
+/// of `instruction_ptr + ip_memory_size / 2`): a crash instruction pointer less than 128 bytes above 0 inside a
+/// mapping of page zero (vm.mmap_min_addr = 0: a jump through a near-null pointer in such a process), or less than
+/// 128 bytes below the top of the address space inside a mapping that reaches it. The request may fail (the window
+/// cannot be read from this test process) but must not panic.
+#[test]
+fn c02_crash_ip_window_at_the_edges_of_the_address_space() {
+    let (_keep, base) = fake_stack();
+    let pid = std::process::id() as i32;
+    for (map_start, map_size, ip) in [
+        (0usize, 4096usize, 5usize),
+        (0, 4096, 127),
+        (usize::MAX - 4095, 4095, usize::MAX - 5),
+        (usize::MAX - 4095, 4095, usize::MAX - 127),
+    ] {
+        let mut dumper = dumper_for(vec![
+            mapping(map_start, map_size, MMPermissions::READ | MMPermissions::EXECUTE),
+            mapping(base, 8192, MMPermissions::READ | MMPermissions::WRITE),
+        ]);
+        dumper.threads = vec![crate::linux::ptrace_dumper::Thread { tid: pid, name: None }];
+        let mut config = MinidumpWriter::new(pid, pid);
+        config.crash_context = Some(crash_context_with(ip, base + 64, pid));
+        let mut buffer = DumpBuf::with_capacity(0);
+        let r = std::panic::catch_unwind(std::panic::AssertUnwindSafe(|| write(&mut config, &mut buffer, &dumper).map(|_| ()).map_err(|_| ())));
+        std::mem::forget(dumper);
+        assert!(
+            r.is_ok(),
+            "thread_list_stream::write panicked for a crash instruction pointer {ip:#x} inside the mapping [{map_start:#x}, {:#x})",
+            map_start + map_size
+        );
+    }
+}
